@@ -361,6 +361,21 @@ def run(R):
                         "self.%s is a field of _AsyncGenerator" % attr, "__repr__ reads self.%s, which _AsyncGenerator never defines" % attr)
     # the END marker is compared by identity and a Value by isinstance (subclasses of Value are Values)
     R.require_min("C17.END-FILTER", 4)
+    # the payload of a Value is any object - also a future (an unstarted task handed out as data): _send_inner returns it as its task's
+    # result, so the path that completes a task with its return value must not look at what kind of object that is.  (asynq.result()
+    # asserts that its argument is not a future; mirroring that check where *every* task's return value passes breaks generators.)
+    at_ = R.repo.cls("async_task.AsyncTask")
+    for mname in ("_queue_exit",):
+        m_ = at_.methods.get(mname)
+        if m_ is None:
+            continue
+        ps_ = q.param_names(m_.node)
+        rp_ = ps_[1] if len(ps_) > 1 else None
+        typed = [x for x in q.scope_nodes(m_.node) if isinstance(x, ast.Call) and q.call_name(x) == "isinstance" and x.args and q.src(x.args[0]) == rp_]
+        R.check(not typed, "C17.VALUE-FLOW", m_.qualname + ":untyped", R.site(m_, typed[0]) if typed else R.site(m_),
+                "%s accepts any object as a task's result" % mname,
+                "%s tests the type of the task's result (`%s`): a Value whose payload is a future, produced after an await, is the result of the generator's inner "
+                "task - iteration dies with the failed check, while the same Value before any await is delivered" % (mname, q.src(typed[0])[:60] if typed else ""))
     R.require_min("C17.VALUE-FLOW", 4)
 
 
